@@ -172,4 +172,5 @@ import models_chrono   # noqa
 import models_json     # noqa
 import models_tera     # noqa
 import models_misc     # noqa
+import models_env      # noqa
 _interp.OVERRIDES.update(models_tera.OVERRIDES)
